@@ -193,7 +193,7 @@ func (s *Store) v1Handle(fs filesystem.Storage, cache int) (*filesystem.KeyStore
 	if err != nil {
 		return nil, err
 	}
-	return filesystem.NewCustomFilesystemKeyStore().KeyDirectory(s.Dir).Storage(fs).Encryptor(enc).CacheSize(cache).Build()
+	return filesystem.NewCustomFilesystemKeyStore().KeyDirectory(s.Cfg.spell(s.Dir)).Storage(fs).Encryptor(enc).CacheSize(cache).Build()
 }
 
 func v2Suite() (*cryptoV2.KeyStoreSuite, error) {
